@@ -150,9 +150,19 @@ impl Family for SyncFam {
                 }
                 SOp::Wait(c, m) => {
                     let g = l.mg[*m].take().expect("Wait without guard");
-                    let g = match o.cv[*c].wait(g) {
-                        Ok(g) => g,
-                        Err(p) => p.into_inner(),
+                    let g = if alt_api() {
+                        let (g, to) = match o.cv[*c].wait_timeout(g, std::time::Duration::from_millis(1)) {
+                            Ok(x) => x,
+                            Err(p) => p.into_inner(),
+                        };
+                        // Shuttle does not model time: the alias never reports a timeout
+                        assert!(!to.timed_out(), "wait_timeout reported a timeout");
+                        g
+                    } else {
+                        match o.cv[*c].wait(g) {
+                            Ok(g) => g,
+                            Err(p) => p.into_inner(),
+                        }
                     };
                     let v = *g;
                     l.mg[*m] = Some(g);
@@ -160,9 +170,18 @@ impl Family for SyncFam {
                 }
                 SOp::WaitWhile0(c, m) => {
                     let g = l.mg[*m].take().expect("WaitWhile0 without guard");
-                    let g = match o.cv[*c].wait_while(g, |d| *d == 0) {
-                        Ok(g) => g,
-                        Err(p) => p.into_inner(),
+                    let g = if alt_api() {
+                        let (g, to) = match o.cv[*c].wait_timeout_while(g, std::time::Duration::from_millis(1), |d| *d == 0) {
+                            Ok(x) => x,
+                            Err(p) => p.into_inner(),
+                        };
+                        assert!(!to.timed_out(), "wait_timeout_while reported a timeout");
+                        g
+                    } else {
+                        match o.cv[*c].wait_while(g, |d| *d == 0) {
+                            Ok(g) => g,
+                            Err(p) => p.into_inner(),
+                        }
                     };
                     let v = *g;
                     l.mg[*m] = Some(g);
@@ -179,7 +198,14 @@ impl Family for SyncFam {
                 SOp::BarrierWait(b) => SRes::Leader(o.b[*b].wait().is_leader()),
                 SOp::OnceCall(i) => {
                     let mut ran = false;
-                    o.o[*i].call_once(|| ran = true);
+                    if alt_api() {
+                        o.o[*i].call_once_force(|st| {
+                            assert!(!st.is_poisoned(), "call_once_force saw a poisoned Once nobody poisoned");
+                            ran = true
+                        });
+                    } else {
+                        o.o[*i].call_once(|| ran = true);
+                    }
                     SRes::Ran(ran)
                 }
                 SOp::OnceNested(a, b) => {
@@ -193,7 +219,11 @@ impl Family for SyncFam {
                 }
                 SOp::OnceIsCompleted(i) => SRes::Bool(o.o[*i].is_completed()),
                 SOp::Park => {
-                    shuttle::thread::park();
+                    if alt_api() {
+                        shuttle::thread::park_timeout(std::time::Duration::from_millis(1));
+                    } else {
+                        shuttle::thread::park();
+                    }
                     SRes::Unit
                 }
                 SOp::Unpark(t) => {
@@ -733,6 +763,13 @@ fn bounded_set(big: bool) -> Vec<Program<SyncFam>> {
 }
 
 pub fn program_set(set: &str) -> Vec<Program<SyncFam>> {
+    if let Some(base) = set.strip_suffix("-alt") {
+        // the same programs through the alias entry points (see prog::alt_api)
+        return program_set(base)
+            .into_iter()
+            .filter(|p| p.threads.iter().flatten().any(|o| matches!(o, GOp::Op(SOp::Wait(..) | SOp::WaitWhile0(..) | SOp::Park | SOp::OnceCall(_)))))
+            .collect();
+    }
     if set == "bounded" {
         return bounded_set(false);
     }
